@@ -51,18 +51,27 @@ Section Spec.
 
   Definition is_page (x : out) : bool := match x with OPage _ _ => true | _ => false end.
 
-  (* x sends the user agent nowhere but to u, and only if u is registered for (client id, rt) *)
-  Definition target_ok (cid u rt : string) (x : out) : bool :=
+  (* x sends the user agent nowhere but to one of the URIs the request itself mentioned
+     (cands), and only if that URI is registered for (client id, rt) *)
+  Definition target_ok (cid : string) (cands : list string) (rt : string) (x : out) : bool :=
     match x with
     | ORedirect fr _ t =>
-        match find_client cs cid, u_canon (info u) with
-        | Some c, Some (cq, cf) => registered c u rt && String.eqb t (if fr then cf else cq)
-        | _, _ => false
+        match find_client cs cid with
+        | Some c =>
+            existsb (fun u => match u_canon (info u) with
+                              | Some (cq, cf) => registered c u rt && String.eqb t (if fr then cf else cq)
+                              | None => false
+                              end) cands
+        | None => false
         end
     | OForm t =>
-        match find_client cs cid, u_form (info u) with
-        | Some c, Some t' => registered c u rt && String.eqb t t'
-        | _, _ => false
+        match find_client cs cid with
+        | Some c =>
+            existsb (fun u => match u_form (info u) with
+                              | Some t' => registered c u rt && String.eqb t t'
+                              | None => false
+                              end) cands
+        | None => false
         end
     | OPanic => false
     | _ => true
@@ -72,13 +81,13 @@ Section Spec.
     match x with ORedirect _ _ _ | OForm _ | OLogin _ | OPanic => false | _ => true end.
 
   (* missing / unknown client (every way the client lookup can fail: not registered, or the
-     storage call itself fails) / non-matching redirect URI *)
+     storage call itself fails) / non-matching redirect URI: no URI the request mentions
+     (plain parameter, request object) matches anything registered *)
   Definition must_page (q : areq) : bool :=
-    String.eqb (q_uri q) "" ||
     match q_fault q with AF_GetClient _ => true | _ => false end ||
     match find_client cs (q_client q) with
     | None => true
-    | Some c => negb (matching c (q_uri q))
+    | Some c => forallb (fun u => String.eqb u "" || negb (matching c u)) (candidates q)
     end.
 
   Definition login_ok (q : areq) (x : out) : bool :=
@@ -92,17 +101,17 @@ Section Spec.
 
   Definition is_login (x : out) : bool := match x with OLogin _ => true | _ => false end.
 
-  (* created = (client id, redirect URI, response type) of the requests the
+  (* created = (client id, redirect URIs mentioned, response type) of the requests the
      implementation accepted so far (those it answered with the login redirect) *)
-  Fixpoint spec_hist (created : list (string * string * string)) (ops : list op) (outs : list out) : bool :=
+  Fixpoint spec_hist (created : list (string * list string * string)) (ops : list op) (outs : list out) : bool :=
     match ops, outs with
     | [], [] => true
     | o :: ops', x :: outs' =>
         match o with
         | Authorize _ q =>
             (if must_page q then is_page x else true)
-            && target_ok (q_client q) (q_uri q) (q_rt q) x && login_ok q x
-            && spec_hist (if is_login x then created ++ [(q_client q, q_uri q, q_rt q)] else created) ops' outs'
+            && target_ok (q_client q) (candidates q) (q_rt q) x && login_ok q x
+            && spec_hist (if is_login x then created ++ [(q_client q, candidates q, q_rt q)] else created) ops' outs'
         | Login _ => spec_hist created ops' outs'
         | Callback _ k _ =>
             match match k with Some k => nth_error created k | None => None end with
